@@ -54,29 +54,50 @@ func (dp *DataProcessor) Process() {
 
 	// Main processing loop
 	for {
-		// Safely access dataChan using read lock
+		// Receive while HOLDING the read lock. expandDataChannel migrates the
+		// buffered rows to the new channel under the write lock; a receive from a
+		// reference loaded earlier could run concurrently with that migration and
+		// take row k+1 from the old channel after row k had been moved to the new
+		// one, i.e. process one producer's rows out of order. Holding the read lock
+		// makes "load the reference + receive" atomic w.r.t. the swap. The lock is
+		// released before the row is processed, and at the latest when the ticker
+		// fires, so a waiting expansion is delayed by at most one tick, and only
+		// when the channel is empty (when no expansion is needed).
 		dp.stream.dataChanMux.RLock()
 		currentDataChan := dp.stream.dataChan
-		dp.stream.dataChanMux.RUnlock()
 
 		// Check if dataChan is nil (stream has been stopped)
 		if currentDataChan == nil {
+			dp.stream.dataChanMux.RUnlock()
 			return
 		}
 
 		verifYield("consumer_loaded")
+		var (
+			data     map[string]any
+			received bool
+			quit     bool
+		)
 		select {
-		case data, ok := <-currentDataChan:
+		case d, ok := <-currentDataChan:
 			if !ok {
 				// Channel is closed
-				return
+				quit = true
+			} else {
+				data, received = d, true
 			}
-			dp.processItem(data)
 		case <-dp.stream.done:
 			// Received close signal
-			return
+			quit = true
 		case <-ticker.C:
 			// Timer triggered, do nothing, just prevent CPU spinning
+		}
+		dp.stream.dataChanMux.RUnlock()
+		if quit {
+			return
+		}
+		if received {
+			dp.processItem(data)
 		}
 	}
 }
